@@ -174,12 +174,16 @@ func (wf *Workflow) SetSink(sink *Sink) {
 // currently running in the workflow
 func (wf *Workflow) IncConcurrentTasks(slots int) {
 	// We must lock so that multiple processes don't end up with partially "filled slots"
+	vhook("inc.enter")
 	wf.concurrentTasksMx.Lock()
+	vhook("inc.locked")
 	for i := 0; i < slots; i++ {
 		wf.concurrentTasks <- struct{}{}
 		Debug.Println("Increased concurrent tasks")
+		vhook("inc.token")
 	}
 	wf.concurrentTasksMx.Unlock()
+	vhook("inc.unlocked")
 }
 
 // DecConcurrentTasks decreases the conter for how many concurrent tasks are
@@ -188,6 +192,7 @@ func (wf *Workflow) DecConcurrentTasks(slots int) {
 	for i := 0; i < slots; i++ {
 		<-wf.concurrentTasks
 		Debug.Println("Decreased concurrent tasks")
+		vhook("dec.token")
 	}
 }
 
@@ -312,12 +317,15 @@ func (wf *Workflow) runProcs(procs map[string]WorkflowProcess) {
 
 	for _, proc := range procs {
 		Debug.Printf(wf.name+": Starting process (%s) in new go-routine", proc.Name())
+		vhook("wf.start", proc.Name())
 		go proc.Run()
 	}
 
 	Debug.Printf("%s: Starting driver process (%s) in main go-routine", wf.name, wf.driver.Name())
 	wf.Auditf("Starting workflow (Writing log to %s)", wf.logFile)
+	vhook("wf.driver.start", wf.driver.Name())
 	wf.driver.Run()
+	vhook("wf.driver.return", wf.driver.Name())
 	wf.Auditf("Finished workflow (Log written to %s)", wf.logFile)
 }
 
